@@ -77,10 +77,28 @@ fn strip_ws(s: &str) -> String {
     s.chars().filter(|c| !c.is_whitespace()).collect()
 }
 
+thread_local! {
+    /// Texts of the sources that `\\ps<id> ` pushes (filled by `wrap_in_macros`, per case).
+    static PUSH_TEXTS: std::cell::RefCell<std::collections::HashMap<i32, String>> = std::cell::RefCell::new(std::collections::HashMap::new());
+}
+
+/// `\ps<id> `: an expansion primitive that pushes a new source in front of the input, the way
+/// `\input` does (no file system needed): the text registered under `<id>`.
+fn push_source_primitive(
+    token: texlang::token::Token,
+    input: &mut texlang::vm::ExpansionInput<StdLibState>,
+) -> texlang::prelude::Result<()> {
+    use texlang::traits::*;
+    let id = i32::parse(input)?;
+    let text = PUSH_TEXTS.with(|m| m.borrow().get(&id).cloned().unwrap_or_default());
+    input.push_source(token, format!("pushed{id}.tex").into(), text)
+}
+
 fn run_tex(src: &str, simple_xa: bool) -> (Real, String) {
     let mut title = String::new();
     let r = caught(|| {
         let mut cmds = texlang_stdlib::built_in_commands::<StdLibState>();
+        cmds.insert("ps", texlang::command::BuiltIn::new_expansion(push_source_primitive));
         if simple_xa {
             cmds.insert("expandafter", texlang_stdlib::expansion::get_expandafter_simple());
         }
@@ -648,23 +666,54 @@ fn wrap_in_macros(src: &str, marks: &[usize], fl: &[Flat], seed: u64) -> String 
         if k < 3 && starts_delivered && rng.chance(3, n as u64 / 2 + 3) {
             let len = 1 + rng.below((n - i).min(14) as u64) as usize;
             let text = &src[bounds[i]..bounds[i + len]];
-            if balanced(text) {
-                let nest = fl[i..i + len].iter().fold((0i64, false), |(d, neg), f| match f {
-                    Flat::If(_) => (d + 1, neg),
-                    Flat::Fi(_) => (d - 1, neg || d - 1 < 0),
-                    _ => (d, neg),
-                });
-                if nest.0 != 0 || nest.1 {
+            // 0 macro body, 1 macro argument, 2 pushed source followed by the pending rest of the
+            // macro body that pushed it (split at an arbitrary token boundary of the range)
+            let kind = rng.below(3);
+            // mostly a proper split (both parts non-empty) when the range allows it
+            let split = if len >= 2 && rng.chance(5, 6) { 1 + rng.below(len as u64 - 1) as usize } else { rng.below(len as u64 + 1) as usize };
+            let (first, second) = (&src[bounds[i]..bounds[i + split]], &src[bounds[i + split]..bounds[i + len]]);
+            if (kind < 2 && balanced(text)) || (kind == 2 && balanced(second)) {
+                let nest = |r: &[Flat]| {
+                    r.iter().fold((0i64, false), |(d, neg), f| match f {
+                        Flat::If(_) => (d + 1, neg),
+                        Flat::Fi(_) => (d - 1, neg || d - 1 < 0),
+                        _ => (d, neg),
+                    })
+                };
+                let whole = nest(&fl[i..i + len]);
+                if whole.0 != 0 || whole.1 {
                     tags.push("wrap:range cuts a conditional in pieces".to_string());
                 }
-                if rng.chance(1, 2) {
-                    let name = format!("\\w{}", (b'A' + k) as char);
-                    defs.push_str(&format!("\\def{name}{{{text}}}"));
-                    body.push_str(&format!("{name} "));
-                    tags.push("wrap:macro body".to_string());
-                } else {
-                    body.push_str(&format!("\\wI{{{text}}}"));
-                    tags.push("wrap:macro argument".to_string());
+                let name = format!("\\w{}", (b'A' + k) as char);
+                match kind {
+                    0 => {
+                        defs.push_str(&format!("\\def{name}{{{text}}}"));
+                        body.push_str(&format!("{name} "));
+                        tags.push("wrap:macro body".to_string());
+                    }
+                    1 => {
+                        body.push_str(&format!("\\wI{{{text}}}"));
+                        tags.push("wrap:macro argument".to_string());
+                    }
+                    _ => {
+                        // the pushed source ends in `%` so that its end of line adds no space token
+                        let id = PUSH_TEXTS.with(|m| {
+                            let mut m = m.borrow_mut();
+                            let id = m.len() as i32 + 1;
+                            m.insert(id, format!("{first}%"));
+                            id
+                        });
+                        defs.push_str(&format!("\\def{name}{{\\ps{id} {second}}}"));
+                        body.push_str(&format!("{name} "));
+                        tags.push("wrap:pushed source + pending macro body".to_string());
+                        let open = nest(&fl[i..i + split]);
+                        if open.0 > 0 && !second.is_empty() {
+                            tags.push("wrap:conditional opened in the pushed source continues in the pending tokens".to_string());
+                        }
+                        if split == 0 || split == len {
+                            tags.push("wrap:pushed source or pending part empty".to_string());
+                        }
+                    }
                 }
                 k += 1;
                 i += len;
@@ -2359,7 +2408,7 @@ impl Property for C07 {
          every conditional token is written as the primitive, a control-sequence \\let alias or one of two active characters (\\catcode 13, 16 in all) \\let to it, in selected and skipped text at every depth; three more active characters (\\let to \\fi then redefined as a macro, \\let to \\relax, \\let to a letter) are plain tokens that must not count; \
          condS (half as many again): the same trees with scoped alias histories — before the tree and inside selected text, random `{`, `}`, local and \\global \\let/\\def that move ten names (3 control sequences, 2 active characters, the primitive names \\else \\fi \\or \\iftrue \\ifodd) between the eight conditional meanings, an empty macro and \\relax; the harness tracks the current meaning of every name with TeX's grouping, writes conditional tokens through names that currently carry the meaning (static aliases when the primitive's own name is reassigned) and sprinkles names that currently carry no class into selected and skipped text; \
          operands are written as decimal + space, \\count register, decimal WITHOUT terminating space (a quarter of the cases; known finding C07-i), hexadecimal, octal, with spaces produced by a macro around the relation / before the number, or with redundant minus signs; \
-         a third of the cond/condR/condS cases (`cond+<seed>`) moves up to three random token ranges that start in executed text into macro bodies or through a macro argument (they may run into skipped text and cut conditionals in pieces); \
+         a third of the cond/condR/condS cases (`cond+<seed>`) moves up to three random token ranges that start in executed text into macro bodies, through a macro argument, or into a source pushed in front of the input by an expansion primitive (`\\ps<id>`, what \\input does) followed by the pending rest of the macro body that pushed it, split at an arbitrary token boundary (ranges may run into skipped text and cut conditionals in pieces); \
          xa: random streams of 0..24 tokens over \\expandafter, two \\let aliases of it, \\noexpand, 0..4 macros with 0..2 parameters (terminating by construction), \\iftrue, \\fi, \\relax, letters; both EOF positions; \
          xah (3/5 of the xa budget): the same after a random VM history of 1..10 operations (\\toks assignments and overwrites of 0..200 tokens, local and \\global, groups that save/restore them, \\the\\toks, macro calls without/with one braced/with two arguments, \\def with long bodies, nested conditionals, \\expandafter chains) whose own output the harness predicts. \
          Non-trivial = tree depth >= 1 (cond), at least one conditional token (tok), at least one \\expandafter or \\noexpand (xa); distinct = distinct case string."
@@ -2666,6 +2715,7 @@ impl Property for C07 {
         };
         WRAP.with(|w| w.set(wrap));
         WRAP_TAGS.with(|t| t.borrow_mut().clear());
+        PUSH_TEXTS.with(|m| m.borrow_mut().clear());
         match cmd {
             "cond" | "condR" => self.run_cond(cmd == "condR", false, &parse_i64s(rest), drv, &mut out),
             "condS" => self.run_cond(false, true, &parse_i64s(rest), drv, &mut out),
